@@ -157,6 +157,8 @@ type world struct {
 	K       gethcommon.Address
 	cosmos  *secp256k1.PrivKey
 	otherDn string
+	O       evmtest.EthPrivKeyAcc // owner of a TestERC20 mapped to a bank denom (only for call_s2b cases)
+	erc20   gethcommon.Address
 }
 
 const gasPriceWei = 1_000_000_000_000 // 1 unibi per gas
@@ -189,8 +191,40 @@ func newWorld(t *testing.T, in *c09Input) *world {
 	}
 	must(c.Fund(w.X.NibiruAddr, sdk.NewCoins(sdk.NewCoin(w.otherDn, sdkmath.NewInt(1_000_000_000)))))
 	must(c.Fund(sdk.AccAddress(w.cosmos.PubKey().Address()), Unibi(1e12)))
+	for _, q := range in.Queries {
+		if q.Kind == "call_s2b" {
+			w.setupFunToken(t)
+			break
+		}
+	}
 	c.EndBlock()
 	return w
+}
+
+// setupFunToken deploys TestERC20 (owner O) and maps it to a bank denom, in the funding block.
+func (w *world) setupFunToken(t *testing.T) {
+	c := w.c
+	w.O = detAcc(0x55)
+	setup := secp256k1.GenPrivKeyFromSecret([]byte("c09-setup"))
+	saddr := sdk.AccAddress(setup.PubKey().Address())
+	if err := c.Fund(w.O.NibiruAddr, Unibi(1e13)); err != nil {
+		t.Fatal(err)
+	}
+	if err := c.Fund(saddr, Unibi(1e15)); err != nil {
+		t.Fatal(err)
+	}
+	msg, err := c.SignEth(w.O, &evm.EvmTxArgs{Nonce: 0, GasLimit: 3_000_000, GasPrice: big.NewInt(gasPriceWei), Input: embeds.SmartContract_TestERC20.Bytecode})
+	if err != nil {
+		t.Fatal(err)
+	}
+	if r := c.DeliverEth(msg); r.Code != 0 {
+		t.Fatalf("deploy TestERC20: %s", r.Log)
+	}
+	w.erc20 = crypto.CreateAddress(w.O.EthAddr, 0)
+	erc := eth.EIP55Addr{Address: w.erc20}
+	if r := c.DeliverCosmos(setup, 5_000_000, Unibi(1_000_000), &evm.MsgCreateFunToken{FromErc20: &erc, Sender: saddr.String()}); r.Code != 0 {
+		t.Fatalf("create funtoken from erc20: %s", r.Log)
+	}
 }
 
 func (w *world) addr(id int) gethcommon.Address {
@@ -357,6 +391,12 @@ func (w *world) doQuery(q c09Query) (res string, gas int64) {
 		return w.ethCall("/eth.evm.v1.Query/EthCall", w.callArgs(ft, nil, packBankMsgSend(to, "unibi", q.Amt))), 0
 	case "call_bank_other": // the same with a denom that is not the EVM denom
 		return w.ethCall("/eth.evm.v1.Query/EthCall", w.callArgs(ft, nil, packBankMsgSend(to, w.otherDn, q.Amt))), 0
+	case "call_s2b": // eth_call of FunToken.sendToBank(erc20, amt, to) from the ERC20 owner: ERC20 transfer + mint and send of the mapped bank denom
+		in, _ := embeds.SmartContract_FunToken.ABI.Pack("sendToBank", w.erc20, big.NewInt(q.Amt), to.Hex())
+		d := hexutil.Bytes(in)
+		a := evm.JsonTxArgs{From: &w.O.EthAddr, To: &ft, Input: &d}
+		bz, _ := json.Marshal(a)
+		return w.ethCall("/eth.evm.v1.Query/EthCall", bz), 0
 	case "est_xfer":
 		return w.ethCall("/eth.evm.v1.Query/EstimateGas", w.callArgs(to, unibiWei(q.Amt), nil)), 0
 	case "est_bank":
@@ -557,10 +597,17 @@ func runCase(t *testing.T, in *c09Input) c09Obs {
 	noq := *in
 	noq.Queries, noq.Point, noq.K = nil, "", 0
 	keyBz, _ := json.Marshal(noq)
-	base, ok := baseCache[string(keyBz)]
+	key := string(keyBz)
+	for _, q := range in.Queries {
+		if q.Kind == "call_s2b" {
+			key += "+funtoken-setup" // the funding block of such cases also deploys and maps an ERC20
+			break
+		}
+	}
+	base, ok := baseCache[key]
 	if !ok {
 		base = runReplica(t, in, false)
-		baseCache[string(keyBz)] = base
+		baseCache[key] = base
 	}
 	with := runReplica(t, in, true)
 	return c09Obs{
@@ -576,7 +623,7 @@ func runCase(t *testing.T, in *c09Input) c09Obs {
 
 // kinds that perform a unibi bank operation (the only requests that reach Keeper.Bank.StateDB on the unchanged tree)
 var bankingKinds = []string{"call_bank", "est_bank", "trace_bank", "sim_evm", "sim_evm_bank", "sim_bank"}
-var plainKinds = []string{"call_xfer", "est_xfer", "call_bank_other"}
+var plainKinds = []string{"call_xfer", "est_xfer", "call_bank_other", "call_s2b"}
 var readKinds = []string{"call_read", "grpc_bank", "grpc_evm_balance", "grpc_funtoken", "grpc_oracle"}
 
 func genQuery(r *Rng, kinds []string) c09Query {
@@ -688,4 +735,58 @@ func TestC09(t *testing.T) {
 		}
 		em.Emit(in, obs, nil)
 	}
+}
+
+// TestRaceC09 (evidence only, not part of the check's verdict): the same scenario with REAL goroutines.
+// One goroutine delivers an EVM tx whose yield points sleep briefly; another one issues eth_call requests
+// (FunToken.bankMsgSend of unibi) through app.Query for the whole time.  Build with the race detector:
+//
+//	cd /verif/harness && GOFLAGS=-mod=mod GOPROXY=off go test -race -c -o /tmp/c09race.test ./c09
+//	cd /tmp/somewhere && VERIF_C09_RACE=1 /tmp/c09race.test -test.run '^TestRaceC09$' -test.v 2>&1 | grep -A12 'DATA RACE'
+//
+// Reports whose stacks include github.com/NibiruChain/nibiru (NibiruBankKeeper.SyncStateDBWithAccount reading the
+// field that Keeper.NewStateDB / EthereumTx write) are the unsynchronised sharing the property forbids.
+func TestRaceC09(t *testing.T) {
+	if os.Getenv("VERIF_C09_RACE") == "" {
+		t.Skip("evidence run; set VERIF_C09_RACE=1 (binary built with -race)")
+	}
+	in := &c09Input{Value: 30_000_000, Bal: [3]int64{50_000_000, 1_000_000, 0}}
+	for i := 0; i < 6; i++ {
+		in.Steps = append(in.Steps, c09Step{Op: "yield"}, c09Step{Op: "bank", To: 3, Amt: 1_000_000})
+	}
+	w := newWorld(t, in)
+	c := w.c
+	w.pc.hook = func() { time.Sleep(3 * time.Millisecond) }
+	c.BeginBlock(5 * time.Second)
+	stop := make(chan struct{})
+	var wg sync.WaitGroup
+	var n int
+	wg.Add(1)
+	go func() {
+		defer wg.Done()
+		for {
+			select {
+			case <-stop:
+				return
+			default:
+			}
+			func() {
+				defer func() { _ = recover() }()
+				w.doQuery(c09Query{Kind: "call_bank", To: 2, Amt: 5_000_000})
+			}()
+			n++
+		}
+	}()
+	time.Sleep(5 * time.Millisecond)
+	msg, err := c.SignEth(w.S, &evm.EvmTxArgs{Nonce: 0, GasLimit: 3_000_000, GasPrice: big.NewInt(gasPriceWei), Amount: unibiWei(in.Value), Input: w.initCode(in)})
+	if err != nil {
+		t.Fatal(err)
+	}
+	var r abci.ResponseDeliverTx
+	p := Recover(func() { r = c.DeliverEth(msg) })
+	close(stop)
+	wg.Wait()
+	ctx := c.Ctx()
+	fmt.Printf("race scenario: tx code=%d panic=%q, %d concurrent eth_calls; X=%s Y=%s (X signed nothing; without requests X=50000000 Y=1000000)\n", r.Code, p, n,
+		c.App.BankKeeper.GetBalance(ctx, w.X.NibiruAddr, "unibi").Amount, c.App.BankKeeper.GetBalance(ctx, eth.EthAddrToNibiruAddr(w.Y), "unibi").Amount)
 }
